@@ -42,6 +42,8 @@ pub enum Name {
     Pseudo(u8),
     /// absolute path made of arbitrary (valid UTF-8) characters, used by the fuzz decoder
     RawPath(String),
+    /// a deleted file whose own name ends in " (deleted)": the kernel appends its marker once more
+    PathDeleted2(u8),
 }
 
 impl Name {
@@ -52,6 +54,7 @@ impl Name {
             Name::PathDeleted(i) => format!("{} (deleted)", PATHS[*i as usize % PATHS.len()]),
             Name::Pseudo(i) => PSEUDO[*i as usize % PSEUDO.len()].to_string(),
             Name::RawPath(p) => format!("/{p}"),
+            Name::PathDeleted2(i) => format!("{} (deleted) (deleted)", PATHS[*i as usize % PATHS.len()]),
         }
     }
     /// name as the statement sees it: the mapped path without the kernel's
@@ -61,6 +64,7 @@ impl Name {
             Name::None => None,
             Name::Path(i) | Name::PathDeleted(i) => Some(PATHS[*i as usize % PATHS.len()].to_string()),
             Name::Pseudo(i) => Some(PSEUDO[*i as usize % PSEUDO.len()].to_string()),
+            Name::PathDeleted2(i) => Some(format!("{} (deleted)", PATHS[*i as usize % PATHS.len()])),
             Name::RawPath(p) => {
                 let t = format!("/{p}");
                 let t = t.trim().to_string();
@@ -69,7 +73,7 @@ impl Name {
         }
     }
     pub fn is_path(&self) -> bool {
-        matches!(self, Name::Path(_) | Name::PathDeleted(_) | Name::RawPath(_))
+        matches!(self, Name::Path(_) | Name::PathDeleted(_) | Name::RawPath(_) | Name::PathDeleted2(_))
     }
 }
 
@@ -380,6 +384,7 @@ pub fn name_strategy() -> impl Strategy<Value = Name> {
         4 => Just(Name::None),
         6 => (0u8..6).prop_map(Name::Path),
         1 => (0u8..6).prop_map(Name::PathDeleted),
+        1 => (0u8..6).prop_map(Name::PathDeleted2),
         2 => (0u8..9).prop_map(Name::Pseudo),
     ]
 }
@@ -627,7 +632,7 @@ pub fn run(ctx: &mut LaneCtx) {
         SubSpec {
             name: "generated-maps",
             cases: (80_000, 4_000_000),
-            rule: "generated /proc/pid/maps texts (0..40 lines: loader-like blocks + free lines; all perms; offsets 0/previous end address/previous file offset+size/pages/arbitrary; names none/paths/deleted/pseudo) + vDSO address (none / start of a line / strictly inside a line, byte- or page-aligned / outside every line); non-trivial = at least one merge happened or the gate mapping was renamed; distinct = hash of the case",
+            rule: "generated /proc/pid/maps texts (0..40 lines: loader-like blocks + free lines; all perms; offsets 0/previous end address/previous file offset+size/pages/arbitrary; names none/paths/deleted/a deleted file whose name itself ends in ' (deleted)'/pseudo) + vDSO address (none / start of a line / strictly inside a line, byte- or page-aligned / outside every line); non-trivial = at least one merge happened or the gate mapping was renamed; distinct = hash of the case",
             strategy: case_strategy().boxed(),
             max_shrink_iters: 4096,
             log_current: false,
